@@ -48,12 +48,14 @@ theorem Arr.step_ne_ub [BEq α] (a : Arr α) (op : Op α) : (a.step op).2 ≠ .u
   | some l' => rw [(Arr.step_refines a op l' hs).1]; intro h; cases h
   | none => obtain ⟨_, e, he⟩ := Arr.step_out_of_range a op hs; rw [he]; intro h; cases h
 
-theorem Lst.step_ne_ub [BEq α] [Inhabited α] (l : Lst α) (hinv : l.Inv) (op : Op α) : (l.step op).2 ≠ .ub := by
+/-- the list-level List step reports `.ub` exactly in the territory of known finding KF-C04-list-resize-raw -/
+theorem Lst.step_ne_ub [BEq α] [ZeroIsValue α] (l : Lst α) (hinv : l.Inv) (op : Op α) (hrg : l.rawGrow op = false) :
+    (l.step op).2 ≠ .ub := by
   cases hs : Spec.lstStep l.items op with
   | some l' => rw [(Lst.step_refines l hinv op l' hs).1]; intro h; cases h
   | none =>
     cases hop : op.iterAssign with
-    | false => obtain ⟨_, e, he⟩ := Lst.step_out_of_range l hinv op hop hs; rw [he]; intro h; cases h
+    | false => obtain ⟨_, e, he⟩ := Lst.step_out_of_range l hinv op hop hrg hs; rw [he]; intro h; cases h
     | true =>
       cases op with
       | assign ys b =>
@@ -61,6 +63,19 @@ theorem Lst.step_ne_ub [BEq α] [Inhabited α] (l : Lst α) (hinv : l.Inv) (op :
         | false => intro h; cases h
         | true => simp [Op.iterAssign] at hop
       | _ => simp [Op.iterAssign] at hop
+
+theorem Lst.step_ub_iff [BEq α] [ZeroIsValue α] (l : Lst α) (hinv : l.Inv) (op : Op α) :
+    (l.step op).2 = .ub ↔ l.rawGrow op = true := by
+  constructor
+  · intro h
+    cases hrg : l.rawGrow op with
+    | true => rfl
+    | false => exact absurd h (Lst.step_ne_ub l hinv op hrg)
+  · intro h; exact (Lst.step_rawGrow l op h).1
+
+/-- when the zero record is a value of the element type there is no such territory -/
+theorem Lst.rawGrow_false [ZeroIsValue α] (hz : ZeroIsValue.zeroOk α = true) (l : Lst α) (op : Op α) : l.rawGrow op = false := by
+  cases op <;> simp [Lst.rawGrow, hz]
 
 theorem Tup.step_ne_ub [BEq α] (t : Tup α) (op : Op α) : (t.step op).2 ≠ .ub := by
   cases hs : Spec.tupStep t.items op with
